@@ -124,7 +124,7 @@ def prop(r):
     except NotImplementedError as e:
         raise Reject(f"NotImplementedError: {str(e)[:60]}")
     except Exception as e:  # noqa: BLE001  a crash is not a statement about moved bytes (DESIGN 3.5): counted, floor guards vacuity
-        raise Reject(f"crash:{type(e).__name__}:{_where(e)}:{'+'.join(_features(r)) or 'static'}")
+        raise Reject(f"crash:{type(e).__name__}:{_where(e)}:{sig_class(r, src_overlaps)}")
     after = to_text(mod)
     detail = dict(before=text, after=after, shape=shape, elsize=elsize, base_src=base_src, base_dst=base_dst)
     try:
@@ -194,6 +194,7 @@ def prop(r):
            f"elt:{r['elt']}", f"fam:{r.get('fam', 'constructed')}"]
     feats = _features(r)
     cls += [f"dyn:{f}" for f in feats] or ["dyn:static"]
+    cls.append("class:" + sig_class(r, src_overlaps))
     so_ = r["src"].get("offset", 0)
     do_ = r["dst"].get("offset", 0)
     cls.append("offset:" + ("both" if so_ and do_ else "src" if so_ else "dst" if do_ else "none"))
@@ -243,8 +244,6 @@ def _form(mod, m, n, elsize):
 
 def _equal_step_other_position(r):
     """Some step value (bound > 1) sits at different (dim, depth) positions on the two sides."""
-    if r["src"]["kind"] != "tsl" and r["dst"]["kind"] != "tsl" and False:
-        return False
     try:
         a = G5.ref_static_layout(r, r["src"])
         b = G5.ref_static_layout(r, r["dst"])
@@ -259,11 +258,61 @@ def _equal_step_other_position(r):
     return False
 
 
+def type_level(r, side):
+    """What the *types* say about one side, per position (dim, depth): (step | None, bound | None). Written from the MLIR layout
+    definitions (identity layout: stride of a dimension is static iff every dimension to its right is static; strided: as
+    annotated; a non-tsl side is tiled densely inside a dimension), not from TiledStridedLayout.from_strides."""
+    tb, dyn = r["tb"], r["dyn"]
+    k = side["kind"]
+    out = {}
+    if k == "tsl":
+        for d, bs in enumerate(tb):
+            for kk, b in enumerate(bs):
+                out[(d, kk)] = (side["steps"][d][kk], None if (kk == 0 and dyn[d]) else b)
+        return out
+    shape = G5.rt_shape(r)
+    if k == "none":
+        strides = []
+        rm = G5.rowmajor_strides(shape)
+        for d in range(len(shape)):
+            strides.append(None if any(dyn[d + 1:]) else rm[d])
+    else:
+        strides = [None if dy else s for s, dy in zip(side["strides"], side["dyn_strides"])]
+    for d, bs in enumerate(tb):
+        inner = 1
+        for kk in reversed(range(len(bs))):
+            b = None if (kk == 0 and dyn[d]) else bs[kk]
+            out[(d, kk)] = (None if (strides[d] is None or inner is None) else strides[d] * inner, b)
+            inner = None if (inner is None or b is None) else inner * b
+    return out
+
+
+def sig_class(r, src_overlaps=False):
+    """Structural class of a case for signatures (narrow known findings), decided on what the two *types* say:
+    source-repeats-a-stride     two positions of the source hold the same static (step, bound) with bound > 1 (so the source
+                                overlaps itself in a way that makes two of its strides indistinguishable by value)
+    shared-dynamic-bound-stride some position holds, on both sides, the same static step with a dynamic bound (`[?] -> (s)`):
+                                the only way the common contiguous block of the two types can reach a dynamic stride
+    dynamic                     something is `?` but no such position exists
+    static                      nothing is `?`"""
+    a, b = type_level(r, r["src"]), type_level(r, r["dst"])
+    vals = [v for v in a.values() if v[0] is not None and v[1] is not None and v[1] > 1]
+    if len(set(vals)) != len(vals):
+        return "source-repeats-a-stride"
+    if any(a[p] == b[p] and a[p][0] is not None and a[p][1] is None for p in a):
+        return "shared-dynamic-bound-stride"
+    return "dynamic" if _features(r) else "static"
+
+
+_KIND_ORDER = ["content", "write-outside-destination", "read-outside-source", "negative-size"]
+
+
 def signature(r, kinds, form, src_overlaps):
-    feats = _features(r)
-    if src_overlaps:
-        feats = ["src-overlap"] + feats
-    return "copy-to-dma:" + ("+".join(feats) or "static") + ":" + form[5:] + ":" + "+".join(kinds)
+    primary = [k for k in _KIND_ORDER if k in kinds][0]
+    c = sig_class(r)
+    if c == "source-repeats-a-stride":
+        return f"copy-to-dma:{c}:{primary}"
+    return f"copy-to-dma:{c}:{form[5:]}:{primary}"
 
 
 SUBS = [
